@@ -25,6 +25,17 @@ SCOPING
 * Concurrent puts carry an absolute expiration fixed before the threads start, so the meaning
   of an operation does not depend on where it is linearized; clock advances are atomic
   operations of the history.
+* The linearization must also reproduce the FINAL state (LRU: ring order with per-node hits,
+  limit, counters; Cache: fresh content, counters): it is what later gets would observe.
+
+ROOT-CAUSE BUCKETING (not a scoping decision)
+
+* A non-linearizable history in which a set_max_size overlaps a put is re-run once with
+  LRUCache.set_max_size wrapped (harness side) to run under the cache lock.  If the same case
+  then has a linearization, the violation is keyed ``set_max_size-not-under-lock`` (the one
+  public method that does not take CacheBase.lock); otherwise it keeps the generic key.  The
+  generator steers a share of the cases into that window (over-full cache, put of a new key
+  racing a growing set_max_size) so that the verdict does not depend on the seed.
 """
 
 import time as _real_time
@@ -589,8 +600,19 @@ def run_conc(case, _serialize_setmax=False):
     return {"nontrivial": nontrivial, "classes": sorted(classes)}
 
 
-def _conc_op(is_lru):
+def _conc_op(is_lru, focus="mixed"):
     key = st.integers(0, 3)
+    if focus == "stats":
+        # counters under concurrency: resets and reads racing lookups
+        return _weighted(
+            [
+                (3, st.tuples(st.just("get"), st.integers(0, 1))),
+                (1, st.tuples(st.just("put"), st.integers(0, 1), st.integers(2, 12))),
+                (3, st.just(("reset",))),
+                (3, st.just(("snap",))),
+                (1, st.sampled_from([("hits",), ("misses",)])),
+            ]
+        )
     ops = [
         (5, st.tuples(st.just("put"), key, st.one_of(st.integers(2, 12), st.integers(0, 12)))),
         (5, st.tuples(st.just("get"), key)),
@@ -627,17 +649,22 @@ def conc_cases(draw):
     kind = draw(st.sampled_from(["lru", "lru", "lru", "cache"]))
     is_lru = kind == "lru"
     nt = draw(st.integers(2, 3))
+    focus = draw(st.sampled_from(["mixed"] * 7 + ["stats"]))
     case = {
         "kind": kind,
         "interval": draw(st.sampled_from([1, 4, 1200])),
         "max_size": draw(st.integers(1, 4)),
         "setup": [],
-        "threads": [[list(o) for o in _sized_list(draw, _conc_op(is_lru), 2, 4)] for _ in range(nt)],
+        "threads": [[list(o) for o in _sized_list(draw, _conc_op(is_lru, focus), 2, 4)] for _ in range(nt)],
         "schedule": draw(_conc_schedule()),
     }
     # set-up: nothing / random operations / fill to capacity / fill and shrink the limit
     how = draw(st.sampled_from(["none", "random", "random", "full", "overfull", "overfull"]))
     setup = []
+    if focus == "stats":
+        # start with non-zero hits and misses
+        case["setup"] = [["put", 0, 12], ["get", 0], ["get", 1]] + [["get", 0]] * draw(st.integers(0, 2))
+        return case
     if how in ("full", "overfull"):
         nfill = case["max_size"] if is_lru else draw(st.integers(1, 4))
         for k in range(nfill):
